@@ -97,9 +97,15 @@ def _spellings(c: Constraint):
         yield inner, "falsy" if empty else "truthy", None
 
 
-def _atoms(ctx: Ctx, fi: FuncInfo, test: ast.AST, pol: bool, env=None) -> list[Constraint]:
+def _atoms(ctx: Ctx, fi: FuncInfo, test: ast.AST, pol: bool, env=None, _depth: int = 0) -> list[Constraint]:
     """Atomic constraints that hold when `test` evaluates to `pol`, for the
     shapes where that decomposition is exact or an implication."""
+    if isinstance(test, ast.Name) and _depth < 2:
+        # `too_long = len(x) > MAX` ... `if too_long: raise`: the local names a condition
+        from .canon import local_defs
+        d = local_defs(fi).get(test.id)
+        if isinstance(d, (ast.Compare, ast.BoolOp)) or (isinstance(d, ast.UnaryOp) and isinstance(d.op, ast.Not)):
+            return [Constraint(_t(fi, test), "truthy" if pol else "falsy", None, test)] + _atoms(ctx, fi, d, pol, env, _depth + 1)
     if isinstance(test, ast.UnaryOp) and isinstance(test.op, ast.Not):
         return _atoms(ctx, fi, test.operand, not pol, env)
     if isinstance(test, ast.BoolOp):
@@ -170,7 +176,7 @@ class ConsList(list):
     by_fact: list
 
 
-def refusal_constraints(ctx: Ctx, fi: FuncInfo, accept_return: Iterable[str] = (), env=None) -> list[Constraint]:
+def refusal_constraints(ctx: Ctx, fi: FuncInfo, accept_return: Iterable[str] = (), env=None, _inline: bool = True) -> list[Constraint]:
     out = ConsList()
     out.by_fact = []
     g = ctx.cfg(fi)
@@ -191,7 +197,71 @@ def refusal_constraints(ctx: Ctx, fi: FuncInfo, accept_return: Iterable[str] = (
                 c.from_fact = True
                 c.node = n.ast
                 out.by_fact.append(c)
+    if _inline:
+        out.by_fact += _helper_refusals(ctx, fi, env)
     return out
+
+
+def _helper_refusals(ctx: Ctx, fi: FuncInfo, env) -> list[Constraint]:
+    """Refusals of the module-private helpers `fi` calls unconditionally, read in
+    `fi`'s terms (parameters replaced by the argument texts): a check moved into
+    `_assert_x(a, b)` is still a check of the caller. One level, same module,
+    positional / keyword arguments that are plain expressions."""
+    out: list[Constraint] = []
+    g = ctx.cfg(fi)
+    for c in [x for x in ast.walk(fi.node) if isinstance(x, ast.Call)]:
+        q = ctx.resolve_call(fi, c)
+        h = ctx.prog.functions.get(q or "")
+        if h is None or h is fi or h.module is not fi.module or h.cls is not None and h.cls is not fi.cls:
+            continue
+        local = h.qualname.rsplit(".", 1)[1]
+        if not local.startswith("_") or local.startswith("__") and local.endswith("__"):
+            continue
+        try:
+            if not ctx.unconditional(g, c):
+                continue
+        except Exception:  # noqa: BLE001
+            continue
+        ps = h.params()
+        if ps and ps[0] in ("self", "cls") and isinstance(c.func, ast.Attribute):
+            ps = ps[1:]
+        if any(isinstance(a, ast.Starred) for a in c.args) or any(k.arg is None for k in c.keywords):
+            continue
+        sub = {p_: norm(a) for p_, a in zip(ps, c.args)}
+        sub.update({k.arg: norm(k.value) for k in c.keywords if k.arg in ps})
+        for hc in refusal_constraints(ctx, h, (), env, _inline=False):
+            subj = _subst(str(hc.subject), sub)
+            vt = _subst(str(hc.value_text), sub)
+            nc = Constraint(_S(fi, subj), hc.op, hc.value, c, _S(fi, vt), frozenset(), True)
+            nc.mirror = hc.mirror
+            out.append(nc)
+    return out
+
+
+def _S(fi: FuncInfo, text: str):
+    from .pattern import S, scope_of
+    return S(text, scope_of(fi))
+
+
+def _subst(text: str, sub: dict[str, str]) -> str:
+    if not sub or not text:
+        return text
+    marker = text.split(" |")
+    try:
+        tree = ast.parse(marker[0], mode="eval")
+    except SyntaxError:
+        return text
+
+    class T(ast.NodeTransformer):
+        def visit_Name(self, n: ast.Name):
+            if n.id in sub:
+                try:
+                    return ast.parse(sub[n.id], mode="eval").body
+                except SyntaxError:
+                    return n
+            return n
+    marker[0] = " ".join(ast.unparse(T().visit(tree)).split())
+    return " |".join(marker)
 
 
 def _aliases(subject: str | None, op: str, value: Any):
